@@ -61,7 +61,7 @@ type suite struct {
 	describe func(r *report.Run, thorough bool)
 }
 
-var suites = []*suite{valuesSuite, rowsSuite, typeStringSuite, framesSuite, randomSuite}
+var suites = []*suite{valuesSuite, rowsSuite, typeStringSuite, framesSuite, casSuite, peersSuite, bindSuite, pagesSuite, randomSuite}
 
 func findSuite(name string) *suite {
 	for _, s := range suites {
@@ -496,6 +496,12 @@ func panicClass(msg string) string {
 	msg = strings.TrimPrefix(msg, "runtime error: ")
 	if i := strings.Index(msg, " with "); i > 0 {
 		msg = msg[:i]
+	}
+	if strings.HasPrefix(msg, "interface conversion") {
+		msg = "interface conversion" // the dynamic type found is not part of the class
+	}
+	if i := strings.Index(msg, "no valid connect address for host"); i >= 0 {
+		msg = "no valid connect address for host"
 	}
 	if i := strings.Index(msg, "invalid key type"); i >= 0 {
 		msg = msg[:i+len("invalid key type")] // reflect.MapOf: the offending Go type is not part of the class
